@@ -470,6 +470,9 @@ func callSSA(i *interpreter, caller *frame, callpos token.Pos, fn *ssa.Function,
 			return ext(fr, args)
 		}
 		if !i.eng.interpretable(fn) {
+			if r, ok := callHost(fr, name, args); ok {
+				return r
+			}
 			if fn.Name() == "init" && fn.Signature.Recv() == nil {
 				return nil // initialisers of foreign packages are not run
 			}
